@@ -264,8 +264,10 @@ func scenarios(check string) []scenario {
 		// the chain-key contribution a party reveals in round 3 of the CMP key generation (three parties: shown differently
 		// to the two honest ones), and a second valid commitment shown to one recipient only and opened consistently
 		l = append(l, scenario{Name: "cmp-keygen/n3/t1/chain-key", Proto: "cmp-keygen", N: 3, T: 1, Cost: 2, OnlyPaths: []string{"/C"}})
-		l = append(l, scenario{Name: "cmp-keygen/n3/t1/second-commitment", Proto: "cmp-keygen", N: 3, T: 1, Cost: 2, CommittedOnly: true})
 	}
+	// CMP key generation: a second valid commitment shown to one recipient only and opened consistently; a commitment to a
+	// malformed rid / chain-key contribution opened consistently to everybody
+	l = append(l, scenario{Name: "cmp-keygen/n3/t1/second-commitment", Proto: "cmp-keygen", N: 3, T: 1, Cost: 2, CommittedOnly: true})
 	if check == "C03" || check == "C04" {
 		// the openings of the last round of the offline presigning (presignature id and its decommitment, S share)
 		l = append(l, scenario{Name: "cmp-presign/n2/t1/last-round-openings", Proto: "cmp-presign", N: 2, T: 1, Cost: 2,
